@@ -1178,11 +1178,49 @@ def r_shape(f):
                         if vals_ == ["1"]:
                             out.append(tt["otherwise"])     # Option has two variants: not Some is None
             return out
+        def no_glue_edges(bb_):
+            """edges taken when `mem::needs_drop::<T>()` is false: on them no element has anything to drop, so the remaining
+            elements may be abandoned where they are"""
+            out = set()
+            dxx = Dfx(bb_)
+            for bi, bl in enumerate(bb_.blocks):
+                tt = bl["term"]
+                if bl["cleanup"] or not tt or tt["k"] != "switch":
+                    continue
+                e = strip(dxx.expr(tt["discr"]))
+                neg = False
+                while e[0] == "un" and e[1] == "Not":
+                    neg = not neg; e = strip(e[2])
+                if e[0] == "call" and e[2] == "needs_drop" and str(e[1]).startswith("core::mem::"):
+                    tm_ = [(int(a_), b2) for a_, b2 in tt["targets"]]
+                    for val, tgt in tm_ + [(None, tt["otherwise"])]:
+                        truth = (val == 1) or (val is None and any(v_ == 0 for v_, _ in tm_))
+                        if neg:
+                            truth = not truth
+                        if not truth:
+                            out.add((bi, tgt))
+            return out
+
+        def covered(bb_, targets, points):
+            """every normal path from the entry to a target passes an exhaustion point or a no-drop-glue edge"""
+            cut = no_glue_edges(bb_)
+            seen, work = set(), [0]
+            while work:
+                x = work.pop()
+                if x in seen:
+                    continue
+                seen.add(x)
+                if x in points:
+                    continue
+                for y in bb_.succs(x):
+                    if (x, y) not in cut and not bb_.blocks[y]["cleanup"]:
+                        work.append(y)
+            return all(t_ not in seen or t_ in points for t_ in targets)
         for gb, mv in movers:
             domg = gb.dominators()
             cons = [bi for bi, t, fn in gb.calls() if fn and fn["name"] in CONSUME and on_drain(fn)] + none_exits(gb)
             steps_cursor = any(fn and fn["name"] in CONSUME + STEP1 and on_drain(fn) for bi, t, fn in gb.calls())
-            inner_ok = any(all(c in domg.get(m, set()) for m in mv) for c in cons)
+            inner_ok = any(all(c in domg.get(m, set()) for m in mv) for c in cons) or ((bool(cons) or bool(no_glue_edges(gb))) and covered(gb, mv, set(cons)))
             outer_ok = None
             if gb.id != db.id:
                 gname = (gb.self_head or "").split("::")[-1]
@@ -1191,7 +1229,7 @@ def r_shape(f):
                 # (`guard.0.by_ref().for_each(drop)` under the live guard)
                 ne = none_exits(db) + [t_["target"] for bi_, t_, fn_ in db.calls() if fn_ and fn_["name"] in CONSUME and (on_drain(fn_) or "by_ref" in [f2_["name"] for _, _, f2_ in db.calls() if f2_]) and t_.get("target") is not None]
                 domd = db.dominators()
-                outer_ok = bool(drops) and all(any(n_ in domd.get(d_, set()) for n_ in ne) for d_ in drops)
+                outer_ok = bool(drops) and (all(any(n_ in domd.get(d_, set()) for n_ in ne) for d_ in drops) or ((bool(ne) or bool(no_glue_edges(db))) and covered(db, drops, set(ne))))
             ok_a = inner_ok or bool(outer_ok)
             RR.inst(gb.ident, "(a) the compaction's block moves are preceded by an exhaustion of the drain's cursor on the normal path", ok_a)
             if not ok_a:
